@@ -3,6 +3,7 @@
 mod clock;
 mod hist;
 mod model;
+mod multi;
 mod props;
 mod render;
 mod runner;
